@@ -14,6 +14,9 @@ pub struct Outcome {
     pub counters: Vec<(&'static str, u64)>,
     /// per step: (transition labels, callback counts per class); filled when the header has `trace`
     pub per_step: Vec<(u32, [u64; crate::world::NCLASS])>,
+    /// per step digest of the order-independent observables (len, sorted contents); filled when
+    /// the header has `transcript`
+    pub transcript: Vec<u64>,
     /// exact sub-case that failed, when the evaluation derives several runs from one case
     pub repro: Option<crate::case::Case>,
 }
